@@ -218,7 +218,7 @@ class Scn:
 
 def mixed_scenario(rng, L, tname, sname, cfg, answers=None, npk=None, malformed_p=0.25, badblk_p=0.12, difop_at=None, dual=None,
                    host=False, residual=True, temp_query=False, dev_query=False, big_steps=False, gap_p=0.05, start_az=None, step=None, seq0=None,
-                   dist=None, fov=None, rpm=None, zero_gap=False, tail_invalid_p=0.25, bpv4=None, reversal=None):
+                   dist=None, fov=None, rpm=None, zero_gap=False, tail_invalid_p=0.25, bpv4=None, reversal=None, model_seq=None):
     """one scenario: a DIFOP/MSOP stream for lidar `tname` with malformed packets interleaved"""
     l = L[tname]
     s = Scn(sname)
@@ -248,7 +248,7 @@ def mixed_scenario(rng, L, tname, sname, cfg, answers=None, npk=None, malformed_
             elif rng.random() < 0.2:
                 kd2, v2, h2, r2 = cali_table(rng, l)
                 s.pkt(0, l.difop(dual=rng.random() < 0.5, rpm=rng.choice([300, 600, 1200]), fov=fov, vert=v2, horiz=h2, raw_cali=r2))
-            model = rng.choice([0, 2, 3, 2, 3, 1, 4, 0x10, 0xff]) if tname == 'RSP80' else None
+            model = (model_seq[k % len(model_seq)] if model_seq else rng.choice([0, 2, 3, 2, 3, 1, 4, 0x10, 0xff])) if tname == 'RSP80' else None
             zg = rng.randrange(0, max(1, l.nblk - 2)) if (zero_gap and k == n // 2) else None
             if zg is not None and ms.az < 18000:
                 ms.az = 35000 + rng.randrange(0, 900)
